@@ -965,7 +965,34 @@ func (g *gModel) genCookie(t *rapid.T) Cookie {
 // genAuth fills the credential / cookie part of an sso, launch or login step.
 func (g *gModel) genAuth(t *rapid.T, s *Step) {
 	s.Pw = -1
-	switch k := rapid.IntRange(0, 11).Draw(t, "auth-class"); {
+	withPw := func() []string {
+		var cands []string
+		for _, n := range sortedKeys(g.users) {
+			if g.users[n].pw >= 0 {
+				cands = append(cands, n)
+			}
+		}
+		return cands
+	}
+	switch k := rapid.IntRange(0, 14).Draw(t, "auth-class"); {
+	case k == 12 && len(withPw()) > 0: // a near-miss of the right password, or another user's password
+		s.User = pick(t, "user", withPw())
+		s.Method = "POST"
+		near := idpsrv.NearMissPasswords(g.users[s.User].pw)
+		for _, n := range withPw() {
+			if g.users[n].pw != g.users[s.User].pw {
+				near = append(near, g.users[n].pw)
+			}
+		}
+		near = append(near, 3, -1)
+		s.Pw = pick(t, "near-pw", near)
+		return
+	case k == 13 && len(withPw()) > 0: // the right password under a near-miss of the user name
+		u := pick(t, "user", withPw())
+		s.User = pick(t, "near-user", []string{u + " ", " " + u, u + "\n", "\t" + u, strings.ToUpper(u), strings.ToUpper(u[:1]) + u[1:], u + "/", u + "\x00", u + "%20"})
+		s.Pw = g.users[u].pw
+		s.Method = "POST"
+		return
 	case k <= 3: // right password of a stored user
 		var cands []string
 		for _, n := range sortedKeys(g.users) {
@@ -982,7 +1009,7 @@ func (g *gModel) genAuth(t *rapid.T, s *Step) {
 		fallthrough
 	case k == 4: // wrong password
 		s.User = pick(t, "user", idpsrv.UserNames)
-		s.Pw = rapid.IntRange(0, 3).Draw(t, "pw")
+		s.Pw = rapid.IntRange(0, len(idpsrv.Passwords)-1).Draw(t, "pw")
 		s.Method = "POST"
 	case k == 5: // user without password / absent user, any password incl. empty
 		s.User = pick(t, "user", append([]string{"nobody"}, idpsrv.UserNames...))
@@ -1024,10 +1051,18 @@ func (g *gModel) step(t *rapid.T) Step {
 				ents = append(ents, idpsrv.Variants[v].Entity)
 			}
 		}
-		if len(ents) > 0 && rapid.IntRange(0, 9).Draw(t, "issuer-class") < 6 {
+		var near []int
+		for _, e := range ents {
+			near = append(near, idpsrv.NearMissEntities(e)...)
+		}
+		switch ic := rapid.IntRange(0, 9).Draw(t, "issuer-class"); {
+		case len(ents) > 0 && ic < 5:
 			s.Issuer = pick(t, "issuer", ents)
-		} else {
-			s.Issuer = rapid.IntRange(0, 2).Draw(t, "issuer")
+		case len(near) > 0 && ic < 8:
+			// a near-miss of a registered entity ID: a different SP as far as the IdP is concerned
+			s.Issuer = pick(t, "near-issuer", near)
+		default:
+			s.Issuer = rapid.IntRange(0, len(idpsrv.Entities)-1).Draw(t, "issuer")
 		}
 		// ACS: mostly one the entity's variants know
 		var acs []int
@@ -1070,7 +1105,7 @@ func (g *gModel) step(t *rapid.T) Step {
 		s.Name = pick(t, "user", idpsrv.UserNames)
 		s.Profile = rapid.IntRange(0, idpsrv.NProfiles-1).Draw(t, "profile")
 		if g.costly < 2 && rapid.IntRange(0, 2).Draw(t, "with-password") == 0 {
-			s.Pw = rapid.IntRange(0, 3).Draw(t, "pw")
+			s.Pw = pick(t, "pw", []int{0, 1, 2, 3, 4, 5, 6, 8})
 			g.costly++
 		}
 		s.Bad = rapid.IntRange(0, 11).Draw(t, "bad-body") == 0
@@ -1078,7 +1113,7 @@ func (g *gModel) step(t *rapid.T) Step {
 		s.Op = "seed_user"
 		s.Name = pick(t, "user", idpsrv.UserNames)
 		s.Profile = rapid.IntRange(0, idpsrv.NProfiles-1).Draw(t, "profile")
-		s.Pw = pick(t, "pw", []int{0, 1, 2, 3, -1, 0, 1})
+		s.Pw = pick(t, "pw", []int{0, 1, 2, 3, -1, 0, 1, 4, 5, 6, 9})
 	case k < 53:
 		s.Op = "del_user"
 		s.Name = pick(t, "user", idpsrv.UserNames)
@@ -1090,7 +1125,7 @@ func (g *gModel) step(t *rapid.T) Step {
 	case k < 66: // put service
 		s.Op = "put_service"
 		s.Name = pick(t, "service", idpsrv.ServiceNames)
-		s.MD = pick(t, "md", []int{0, 1, 2, 3, 4, 5, 0, 2, 1, 3, -1})
+		s.MD = pick(t, "md", []int{0, 1, 2, 3, 4, 5, 0, 2, 1, 3, -1, 6, 7, 8, 9, 10})
 		s.Bad = rapid.IntRange(0, 15).Draw(t, "bad-body") == 0
 		s.Method = pick(t, "method", []string{"PUT", "POST"})
 		if excludeStale() {
@@ -1109,7 +1144,7 @@ func (g *gModel) step(t *rapid.T) Step {
 	case k < 78:
 		s.Op = "put_shortcut"
 		s.Name = pick(t, "shortcut", idpsrv.ShortcutNames)
-		s.Issuer = pick(t, "sp", []int{0, 1, 0, 1, 2})
+		s.Issuer = pick(t, "sp", []int{0, 1, 0, 1, 2, 3, 4, 5, 6, 7})
 		s.Relay = rapid.IntRange(0, 2).Draw(t, "relay")
 		if rapid.Bool().Draw(t, "suffix-relay") {
 			s.Suffix = "y"
@@ -1238,7 +1273,7 @@ func gen(t *rapid.T) Case {
 	if rapid.IntRange(0, 9).Draw(t, "populated") < 8 {
 		nu := rapid.IntRange(1, len(idpsrv.UserNames)).Draw(t, "nusers")
 		for i := 0; i < nu; i++ {
-			s := Step{Op: "seed_user", Name: idpsrv.UserNames[i], Pw: pick(t, "pw", []int{0, 1, 2, -1, 0, 1, 3}), Profile: rapid.IntRange(0, idpsrv.NProfiles-1).Draw(t, "profile")}
+			s := Step{Op: "seed_user", Name: idpsrv.UserNames[i], Pw: pick(t, "pw", []int{0, 1, 2, -1, 0, 1, 3, 4, 5, 0}), Profile: rapid.IntRange(0, idpsrv.NProfiles-1).Draw(t, "profile")}
 			c.Init = append(c.Init, s)
 			g.apply(s)
 		}
@@ -1250,7 +1285,7 @@ func gen(t *rapid.T) Case {
 		}
 		nc := rapid.IntRange(0, len(idpsrv.ShortcutNames)).Draw(t, "nshortcuts")
 		for i := 0; i < nc; i++ {
-			s := Step{Op: "put_shortcut", Name: idpsrv.ShortcutNames[i], Issuer: pick(t, "sp", []int{0, 1, 0, 1, 2}), Relay: rapid.IntRange(0, 2).Draw(t, "relay"), Pw: -1}
+			s := Step{Op: "put_shortcut", Name: idpsrv.ShortcutNames[i], Issuer: pick(t, "sp", []int{0, 1, 0, 1, 2, 3, 5}), Relay: rapid.IntRange(0, 2).Draw(t, "relay"), Pw: -1}
 			c.Init = append(c.Init, s)
 			g.apply(s)
 		}
@@ -1604,6 +1639,127 @@ func enumOverwrite(_ string, emit func(Case)) {
 	}
 }
 
+// enumNearMissIdentifiers: entity IDs, service, shortcut and user names that differ from a
+// registered one only by a trailing slash, case, a query, a blank or percent-encoding are
+// different objects: registering / deleting one says nothing about the other.
+func enumNearMissIdentifiers(_ string, emit func(Case)) {
+	c0 := Cookie{Kind: "session", Idx: 0}
+	login := Step{Op: "login", Method: "POST", User: "alice", Pw: 0}
+	base := []Step{{Op: "seed_user", Name: "alice", Pw: 0, Profile: 0}}
+	// variant of each entity (0 and its near-misses 3..7)
+	variantOf := map[int]int{0: 0, 3: 6, 4: 7, 5: 8, 6: 9, 7: 10}
+	ents := []int{0, 3, 4, 5, 6, 7}
+	for _, x := range ents {
+		for _, y := range ents {
+			if x == y {
+				continue
+			}
+			use := func(e int) []Step {
+				v := idpsrv.Variants[variantOf[e]]
+				return []Step{
+					{Op: "sso", Method: "GET", Pw: -1, Issuer: e, ACS: v.ACS[0], Cookie: c0},
+					{Op: "sso", Method: "POST", User: "alice", Pw: 0, Issuer: e, ACS: -1},
+					{Op: "put_shortcut", Name: "sc-x", Pw: -1, Issuer: e, Relay: 1},
+					{Op: "launch", Name: "sc-x", Method: "GET", Pw: -1, Cookie: c0},
+				}
+			}
+			// only x registered: y must not be served; then both; then x deleted: x must stop, y go on
+			steps := []Step{login, {Op: "put_service", Name: "svc-a", Pw: -1, MD: variantOf[x]}}
+			steps = append(steps, use(y)...)
+			steps = append(steps, use(x)...)
+			steps = append(steps, Step{Op: "put_service", Name: "svc-b", Pw: -1, MD: variantOf[y]})
+			steps = append(steps, use(y)...)
+			steps = append(steps, Step{Op: "del_service", Name: "svc-a", Pw: -1})
+			steps = append(steps, use(x)...)
+			steps = append(steps, use(y)...)
+			emit(Case{Seed: 18, Init: base, Steps: steps, Restarts: []int{2, 11, 16}})
+		}
+	}
+	// names: put the name and its near-miss independently, delete one, the other stays
+	type fam struct{ kind, name string }
+	for _, f := range []fam{{"user", "alice"}, {"service", "svc-a"}, {"shortcut", "sc-x"}} {
+		for _, nm := range []string{f.name + "/", f.name + " ", " " + f.name, strings.ToUpper(f.name), f.name + "%2F", f.name + "?x=1", f.name + "%20"} {
+			var steps []Step
+			put := func(n string, k int) Step {
+				switch f.kind {
+				case "user":
+					return Step{Op: "seed_user", Name: n, Pw: k, Profile: k}
+				case "service":
+					return Step{Op: "put_service", Name: n, Pw: -1, MD: k * 2}
+				}
+				return Step{Op: "put_shortcut", Name: n, Pw: -1, Issuer: k}
+			}
+			use := func(n string, k int) []Step {
+				switch f.kind {
+				case "user":
+					return []Step{{Op: "get_user", Name: n, Pw: -1}, {Op: "sso", Method: "POST", User: n, Pw: k, Issuer: 0, ACS: 0}, {Op: "sso", Method: "POST", User: n, Pw: 1 - k, Issuer: 0, ACS: 0}}
+				case "service":
+					v := idpsrv.Variants[k*2]
+					return []Step{{Op: "get_service", Name: n, Pw: -1}, {Op: "sso", Method: "GET", Pw: -1, Issuer: v.Entity, ACS: v.ACS[0], Cookie: c0}}
+				}
+				return []Step{{Op: "get_shortcut", Name: n, Pw: -1}, {Op: "launch", Name: n, Method: "GET", Pw: -1, Cookie: c0}}
+			}
+			del := func(n string) Step { return Step{Op: "del_" + f.kind, Name: n, Pw: -1} }
+			list := Step{Op: "list_" + f.kind + "s", Pw: -1}
+			init := []Step{{Op: "seed_user", Name: "carol", Pw: 2, Profile: 2}, {Op: "put_service", Name: "svc-c", Pw: -1, MD: 0}, {Op: "put_service", Name: "svc-d", Pw: -1, MD: 2}}
+			if f.kind == "service" {
+				init = init[:1] // only the two services of the family: deleting one must stop its entity
+			}
+			steps = append(steps, Step{Op: "login", Method: "POST", User: "carol", Pw: 2}, put(f.name, 0))
+			steps = append(steps, use(nm, 0)...)
+			steps = append(steps, use(f.name, 0)...)
+			steps = append(steps, put(nm, 1), list)
+			steps = append(steps, use(nm, 1)...)
+			steps = append(steps, use(f.name, 0)...)
+			steps = append(steps, del(f.name), list)
+			steps = append(steps, use(f.name, 0)...)
+			steps = append(steps, use(nm, 1)...)
+			steps = append(steps, del(nm), list)
+			steps = append(steps, use(nm, 1)...)
+			emit(Case{Seed: 19, Init: init, Steps: steps, Restarts: []int{len(steps) / 2}})
+		}
+	}
+}
+
+// enumNearMissCredentials: for stored passwords (also ones that begin / end with white space
+// and the empty one) every password of the alphabet - near-misses with white space at either
+// end, other case, NUL, a Unicode look-alike, the trimmed form, another user's password,
+// none - is tried at /login and /sso; and the right password under near-misses of the user name.
+func enumNearMissCredentials(_ string, emit func(Case)) {
+	svc := Step{Op: "put_service", Name: "svc-a", Pw: -1, MD: 0}
+	for _, stored := range []int{0, 4, 5, 3, 1, 8} {
+		for try := -1; try < len(idpsrv.Passwords); try++ {
+			init := []Step{{Op: "seed_user", Name: "alice", Pw: stored, Profile: 0}, {Op: "seed_user", Name: "bob", Pw: 2, Profile: 1}, svc}
+			steps := []Step{
+				{Op: "login", Method: "POST", User: "alice", Pw: try},
+				{Op: "sso", Method: "POST", User: "alice", Pw: try, Issuer: 0, ACS: 0},
+				{Op: "sso", Method: "POST", User: "alice", Pw: stored, Issuer: 0, ACS: 0},
+			}
+			emit(Case{Seed: 20, Init: init, Steps: steps, Restarts: []int{2}})
+		}
+	}
+	for _, stored := range []int{0, 5} {
+		for _, nu := range []string{"alice ", " alice", "alice\n", "\talice", "ALICE", "Alice", "alice/", "alice\x00", "alice%20", "alic", "alice\u00a0"} {
+			init := []Step{{Op: "seed_user", Name: "alice", Pw: stored, Profile: 0}, svc}
+			steps := []Step{
+				{Op: "login", Method: "POST", User: nu, Pw: stored},
+				{Op: "sso", Method: "POST", User: nu, Pw: stored, Issuer: 0, ACS: 0},
+				{Op: "launch", Name: "sc-x", Method: "POST", User: nu, Pw: stored},
+				{Op: "sso", Method: "POST", User: "alice", Pw: stored, Issuer: 0, ACS: 0},
+			}
+			emit(Case{Seed: 21, Init: init, Steps: steps})
+		}
+	}
+	// a password set through the API with white space at its ends works exactly as given only
+	for _, pw := range []int{4, 5} {
+		steps := []Step{{Op: "put_user", Name: "dave", Pw: pw, Profile: 1}}
+		for _, try := range append([]int{pw}, idpsrv.NearMissPasswords(pw)...) {
+			steps = append(steps, Step{Op: "login", Method: "POST", User: "dave", Pw: try})
+		}
+		emit(Case{Seed: 22, Init: []Step{svc}, Steps: steps})
+	}
+}
+
 var prop = &pbt.Prop[Case]{
 	ID: "C19",
 	Rule: "cases: a seeded store (0-4 users with low-cost bcrypt hashes or none, 0-4 services over 6 metadata variants = 2 entity IDs x ACS sets / descriptor layouts, 0-3 shortcuts; names include ones needing path/form escaping) plus a history of 1..25 (thorough 60) steps over " +
@@ -1623,6 +1779,8 @@ var prop = &pbt.Prop[Case]{
 		{Name: "session-expiry-boundary-grid", Each: enumExpiryBoundary},
 		{Name: "put-A-then-put-B-read-use-delete-use", Each: enumOverwrite},
 		{Name: "names-needing-escaping-life-cycle", Each: enumEscapedNames},
+		{Name: "near-miss-entity-ids-and-names", Each: enumNearMissIdentifiers},
+		{Name: "near-miss-credentials", Each: enumNearMissCredentials},
 	},
 	Assumptions: []string{
 		"requests are served by calling the server's http.Handler directly with a counting ResponseWriter (no network)",
